@@ -138,6 +138,5 @@ def run(prop, tier):
 
 
 def replay(prop, path):
-    with open(path) as f:
-        print(f.read()[:3000])
-    return 1
+    from ..common import replay_by_rerun
+    return replay_by_rerun(prop, path)
